@@ -109,6 +109,8 @@ static void op_bppp_challenge(void) {
     secp256k1_bppp_challenge_scalar(secp256k1_get_hash_context(CTX), &ch, &sha, (uint64_t)U(1));
     secp256k1_scalar_get_b32(b, &ch); out_bytes(b, 32);
 }
+/* capacity left in a scratch space: a call must give back everything it took, on every path (otherwise a later call with a sufficient scratch fails) */
+static size_t bp_avail(secp256k1_scratch_space *s) { return s ? secp256k1_scratch_max_allocation(&CTX->error_callback, s, 1) : 0; }
 static secp256k1_scratch_space *bp_scratch(int k) { return I(k) < 0 ? NULL : secp256k1_scratch_space_create(CTX, (size_t)I(k)); }
 
 static void op_bppp_commit(void) {
@@ -137,7 +139,9 @@ static void op_bppp_prove(void) {
     secp256k1_bppp_sha256_tagged_commitment_init(&tr);
     secp256k1_sha256_write(secp256k1_get_hash_context(CTX), &tr, B(0), L(0));
     scratch = bp_scratch(6);
+    { size_t before = bp_avail(scratch);
     ret = secp256k1_bppp_rangeproof_norm_product_prove(CTX, scratch, proof, &plen, &tr, &rho, g, gn, nv, nl, lv, ll, cv, cl);
+    if (bp_avail(scratch) != before) out_int(-77); }
     out_int(ret);
     if (ret) { if (plen != 65 * rounds + 64) out_int(-77); out_bytes(proof, 65 * rounds + 64); }
     secp256k1_scratch_space_destroy(CTX, scratch); free(proof);
@@ -155,8 +159,10 @@ static void op_bppp_verify(void) {
     secp256k1_bppp_sha256_tagged_commitment_init(&tr);
     secp256k1_sha256_write(secp256k1_get_hash_context(CTX), &tr, B(0), L(0));
     scratch = bp_scratch(7);
+    { size_t before = bp_avail(scratch);
     ret = secp256k1_bppp_rangeproof_norm_product_verify(CTX, scratch, proof, L(6), &tr, &rho, &gs, (size_t)I(3), cv, cl, &commit);
     out_int(ret);
+    if (bp_avail(scratch) != before) out_int(-77); }
     secp256k1_scratch_space_destroy(CTX, scratch);
 done:
     free(gs.gens); free(cv); free(proof);
